@@ -137,6 +137,9 @@ def run(ctx):  # noqa: C901
                 break
             if isinstance(st, ast.Expr) and isinstance(st.value, ast.Constant):
                 continue
+            if isinstance(st, ast.Assign) and len(st.targets) == 1 and isinstance(st.targets[0], ast.Name) and \
+                    not any(isinstance(x, ast.Name) and x.id == st.targets[0].id and isinstance(x.ctx, ast.Load) for x in ast.walk(f.node)):
+                continue  # a local nothing reads cannot make the siblings differ
             out.append(ast.dump(st))
         return out
     ctx.ob("R-SIB", lg, "shared dimension prologue identical to negativity's", prologue(ng) == prologue(lg), "same statements" if prologue(ng) == prologue(lg) else "the dimension handling of the two siblings has diverged")
@@ -224,6 +227,21 @@ def run(ctx):  # noqa: C901
     ctx.ob("R-PRED", sv, "k >= min(dim) => plain Euclidean norm", okb, "shortcut condition" if okb else "shortcut condition changed")
     so = m.func("sk_norm.sk_operator_norm")
     _monotone_bounds(ctx, so)
+    # Proposition 4.2.11: upper bound = (k^2, 2)-norm of the realigned operator
+    Nso = Normalizer(m, so, inline=False)
+    for c, cal in calls_from(m, so, "kp_norm.kp_norm"):
+        b = m.bind(c, cal.func)
+        if isinstance(b.get("mat"), ast.Call) and m.resolve_call(so, b["mat"]).key.endswith("realignment.realignment"):
+            kt, pt_ = Nso(b["k"]), Nso(b["p"])
+            ok = kt == ("**", ("n", "k"), ("c", 2)) and pt_ == ("c", 2)
+            ctx.ob("R-BIND", so, "realignment bound is the (k**2, 2)-norm", ok, "kp_norm(realignment(X), k**2, 2)" if ok else
+                   f"kp_norm(realignment(X), {show(kt)}, {show(pt_)}): keeping fewer than k^2 singular values gives a number below values attained by Schmidt-rank-k vectors, so it is not an upper bound", c)
+            rb_ = m.bind(b["mat"], m.resolve_call(so, b["mat"]).func)
+            okd = isinstance(rb_.get("dim"), ast.Name) and rb_["dim"].id == "dim" and isinstance(rb_.get("input_mat"), ast.Name) and rb_["input_mat"].id == "mat"
+            ctx.ob("R-THREAD", so, "realignment(mat, dim) inside the bound", okd, "operand and dims forwarded" if okd else f"called as {unparse(b['mat'])[:50]}", c)
+    # operator vectorisation: rho (rows (r_1, r_2), columns (c_1, c_2)) -> vec grouped as (r_1, c_1 | r_2, c_2)
+    for g in (m.func("schmidt_rank._operator_schmidt_rank"), m.func("schmidt_decomposition._operator_schmidt_decomposition"), m.func("is_product._operator_is_product")):
+        _operator_vectorisation(ctx, g)
     for c, cal in calls_from(m, so, "sk_vec_norm.sk_vector_norm"):
         b = m.bind(c, cal.func)
         ok = isinstance(b.get("k"), ast.Name) and b["k"].id == "k" and isinstance(b.get("dim"), ast.Name) and b["dim"].id == "dim"
@@ -266,6 +284,68 @@ def run(ctx):  # noqa: C901
     okt = bool(tst) and isinstance(lft, ast.Subscript) and isinstance(lft.value, ast.Name) and lft.value.id in sv_names and isinstance(lft.slice, ast.Constant) and lft.slice.value == 1 \
         and opk in (ast.LtE, ast.Lt)
     ctx.ob("R-PRED", ipr, "product iff second Schmidt coefficient <= tolerance", okt, "singular_vals[1] <= eps-scaled bound" if okt else "the product criterion changed")
+
+
+def _operator_vectorisation(ctx, f):
+    """The operator rho on (1)(x)(2) has rows indexed (r_1, r_2) and columns (c_1, c_2), with extents dim[0, :] and dim[1, :].
+    Accepted groupings into the (1 | 2) vector: (A) reshape to the four axes (dim[0,0], dim[0,1], dim[1,0], dim[1,1]) followed by
+    exchanging axes 1 and 2; (B) column vector + swap(., [2, 3], concatenate(dim[1, :], dim[0, :])) (column-major vec: c_2 c_1 r_2 r_1)
+    or permute_systems with the same 4 extents.  A 4-axis reshape whose extents are not (row, row, column, column) is a violation."""
+    m = ctx.model
+    N = Normalizer(m, f, inline=False)
+    key = "operator is split into (row_1, row_2, col_1, col_2) before the subsystem regrouping"
+    found = False
+    for n in walk_no_nested(f.node):
+        if isinstance(n, ast.Call) and isinstance(n.func, ast.Attribute) and n.func.attr == "reshape" and n.args:
+            sh = n.args[0] if len(n.args) == 1 else ast.Tuple(elts=list(n.args), ctx=ast.Load())
+            if isinstance(sh, (ast.Tuple, ast.List)) and len(sh.elts) == 4:
+                found = True
+                idx = []
+                for e in sh.elts:
+                    t = N(e)
+                    while t[0] == "call" and t[1] in ("builtins.int", "numpy.int64", "builtins.round") and t[2]:
+                        t = t[2][0]
+                    if t[0] == "sub" and t[1] == ("n", "dim") and t[2][0] == "tuple" and len(t[2]) == 3 and t[2][1][0] == "c" and t[2][2][0] == "c":
+                        idx.append((t[2][1][1], t[2][2][1]))
+                    else:
+                        idx.append(None)
+                order = next((kw.value.value for kw in n.keywords if kw.arg == "order" and isinstance(kw.value, ast.Constant)), "C")
+                want = [(0, 0), (0, 1), (1, 0), (1, 1)] if order == "C" else [(1, 1), (1, 0), (0, 1), (0, 0)][::-1] if False else [(0, 0), (0, 1), (1, 0), (1, 1)]
+                if None in idx:
+                    ctx.ob("R-LAYOUT", f, key, None, f"extents {unparse(sh)[:60]} not entries of the dim table", n, required=False)
+                else:
+                    ok = idx == want if order == "C" else idx == [(0, 1), (0, 0), (1, 1), (1, 0)]
+                    ctx.ob("R-LAYOUT", f, key, ok, "reshape((dim[0,0], dim[0,1], dim[1,0], dim[1,1]))" if ok else
+                           f"`{unparse(n)[:90]}` splits the rows as {idx[:2]} and the columns as {idx[2:]} (table entries (row, subsystem)): the row index of rho runs over dim[0, :] "
+                           "and the column index over dim[1, :], so for unequal local dimensions the entries are regrouped across subsystem boundaries", n)
+                    # the following axis exchange must be (1 <-> 2)
+                    par = [p_ for p_ in walk_no_nested(f.node) if isinstance(p_, ast.Call) and any(a is n for a in p_.args)]
+                    if par and getattr(par[0].func, "attr", "") in ("moveaxis", "transpose", "swapaxes"):
+                        a_ = [ast.literal_eval(x) for x in par[0].args[1:] if isinstance(x, (ast.Tuple, ast.List, ast.Constant))]
+                        nm = par[0].func.attr
+                        okx = (nm == "moveaxis" and a_ in ([(1, 2), (2, 1)], [1, 2], [2, 1], [(2, 1), (1, 2)])) or (nm == "swapaxes" and sorted(a_) == [1, 2]) or (nm == "transpose" and a_ == [(0, 2, 1, 3)])
+                        ctx.ob("R-LAYOUT", f, "axes 1 and 2 exchanged: (r_1, c_1 | r_2, c_2)", okx, f"{nm}{tuple(a_)}" if okx else f"`{unparse(par[0])[:70]}` does not bring (row_1, col_1) together", par[0])
+    sw = [(c, cal) for c, cal in calls_from(m, f, "swap.swap")] + [(c, cal) for c, cal in calls_from(m, f, "permute_systems.permute_systems")]
+    for c, cal in sw:
+        b = m.bind(c, cal.func)
+        dt = b.get("dim")
+        from ..rules import value_at
+        t = N(dt) if isinstance(dt, ast.AST) else None
+        if t is not None and t[0] == "n":
+            t = value_at(m, f, t[1], c, N) or t
+        if t is None:
+            continue
+        r_ = repr(t)
+        # the four extents of vec(rho): both rows of the dim table (for the operators in scope -- square local blocks -- the two rows coincide)
+        if "numpy.concatenate" in r_:
+            found = True
+            ok = "('c', 1), ('slice'" in r_ and "('c', 0), ('slice'" in r_
+            sy = N(b["sys"]) if isinstance(b.get("sys"), ast.AST) else None
+            oks = sy in (("list", ("c", 2), ("c", 3)), None) if cal.func.name == "swap" else True
+            ctx.ob("R-LAYOUT", f, "vec(rho) is regrouped over the four extents of the dim table, exchanging positions 2 and 3", bool(ok and oks),
+                   "swap(vec(rho), [2, 3], (dim[1, :], dim[0, :]))" if ok and oks else f"extents {show(t)[:80]} / systems {show(sy) if sy else '?'}", c)
+    if not found:
+        ctx.ob("R-LAYOUT", f, key, None, "no 4-axis reshape and no swap / permute of vec(rho) found: the operator vectorisation is not in a recognised form", required=False)
 
 
 def _monotone_bounds(ctx, f):
